@@ -7,10 +7,56 @@ TRUST = [
 NP = dict(overlays=['contracts/next_page.ovl'], harness='harness/C02/colreader.c', includes=['.'],
           extra_sources=['stubs/colreader_stubs.c'], trusted=TRUST, prop='C02')
 
+import glob as _g, os as _o
+_REPO = _o.environ.get('CQV_REPO', '/repo')
+ALL_SRC = sorted(_o.path.relpath(f, _REPO) for f in _g.glob(_o.path.join(_REPO, 'src', '**', '*.c'), recursive=True)
+                 if '/simd/arm/' not in f and '/simd/x86/' not in f)
 TYPES = [(0, 'boolean'), (1, 'int32'), (2, 'int64'), (3, 'int96'), (4, 'float'), (5, 'double'), (6, 'byte_array'), (7, 'flba')]
 JOBS = []
+# carquet_read_next_page, one job per physical type (value size is a constant per job, except FLBA)
 for t, tn in TYPES:
-    JOBS.append(dict(name='c02_next_page_%s' % tn, entry='h_next_page', enforce='carquet_read_next_page', replace=['load_next_page'],
-         loop_contracts=False, wip=True, est_s=60, timeout=240, defines=['CQV_TYPE=%d' % t],
-         note='FINDING: values of a nullable page read in several calls are taken at row offset, not dense offset', **NP))
+    j = dict(name='c02_next_page_%s' % tn, entry='h_next_page', enforce='carquet_read_next_page', replace=['load_next_page'],
+             loop_contracts=False, wip=True, est_s=30, timeout=300, defines=['CQV_TYPE=%d' % t],
+             note='ok on the unchanged tree (2165 obligations). On deliberately broken copies cbmc finds the failing obligation, '
+                  'but the driver reports undecided (rc=6): the json trace of symbolic-size malloc objects / havoc_slice runs out '
+                  'of memory, so no VIOLATION line can be shown -> left wip; the c02_next_page_small_* twins are the validated ones', **NP)
+    if tn == 'int96':      # x12 is not a shift: minisat does not finish in 300 s, cadical needs about 60 s
+        j.update(backend=['cadical', 'sat'], timeout=600, est_s=70)
+    if tn == 'flba':       # value size is the symbolic type_length: product of two variables
+        j.update(backend=['cadical', 'sat'], timeout=900, tier='thorough', est_s=600, level='bounded',
+                 bound='FIXED_LEN_BYTE_ARRAY type_length <= 16', defines=['CQV_TYPE=7', 'CQV_TL_MAX=16'],
+                 note='not decided: symbolic type_length timed out at 300 s (minisat); the bounded/cadical variant was never run')
+    JOBS.append(j)
+# same contract with small buffers: a violation here comes with a counterexample the driver can print
+# (json traces of symbolic-size objects exhaust memory); used for the break-the-code validation
+for t, tn in [(1, 'int32'), (2, 'int64')]:
+    JOBS.append(dict(name='c02_next_page_small_%s' % tn, entry='h_next_page', enforce='carquet_read_next_page', replace=['load_next_page'],
+                     loop_contracts=False, wip=False, est_s=20, timeout=300, defines=['CQV_TYPE=%d' % t, 'CQV_SMALL=1'],
+                     level='bounded', bound='page_num_values <= 8, max_values <= 8', **NP))
+# the C02 obligation the code violates (dense delivery of nullable values across calls), unbounded form
+JOBS.append(dict(name='c02_next_page_dense_int32', entry='h_next_page', enforce='carquet_read_next_page', replace=['load_next_page'],
+                 loop_contracts=False, wip=True, est_s=30, timeout=300, defines=['CQV_TYPE=1', 'CQV_CHECK_DENSE=1', 'CQV_SMALL=1'],
+                 level='bounded', bound='page_num_values <= 8, max_values <= 8 (keeps the json counterexample small)',
+                 replayer=dict(kind='direct', harness='replay/direct/colreader_next_page_dense.c', sources=ALL_SRC,
+                               vars={'pnv': 'cex_pnv', 'start': 'cex_start', 'maxv': 'cex_maxv', 'j': 'cex_j', 'defj': 'cex_defj', 'maxdef': 'cex_maxdef'}),
+                 note='FINDING: values of a nullable page read in several calls are taken at row offset, not dense offset '
+                      '(postcondition fails in 12 s with plain cbmc; the driver json-ui trace of symbolic-size malloc objects runs out of memory)', **NP))
 
+# carquet_column_read_batch / carquet_column_skip (value size constant per job)
+CR = dict(NP)
+CR['overlays'] = ['contracts/next_page.ovl', 'contracts/column_reader.ovl']
+# the reader's buffer pointers are havocked by the callee contract / loop havoc and then constrained by r_ok
+# assumptions: cbmc's check that every r_ok argument is already a valid pointer cannot hold at that point
+CR['cbmc_flags'] = ['--no-pointer-primitive-check']
+CR['trusted'] = TRUST + ['read_batch/skip jobs run with --no-pointer-primitive-check (r_ok in assumed clauses is evaluated on havocked pointers)']
+for t, tn in [(1, 'int32'), (2, 'int64'), (0, 'boolean'), (6, 'byte_array')]:
+    JOBS.append(dict(name='c02_read_batch_%s' % tn, entry='h_read_batch', enforce='carquet_column_read_batch',
+                     replace=['carquet_read_next_page'], min_loop_obligations=1, wip=True, est_s=60, timeout=300,
+                     level='bounded', bound='values, def_levels, rep_levels all non-NULL; max_values <= INT32_MAX',
+                     note='UNDECIDED (contract debugging unfinished, NOT a finding): loop-invariant preservation, the three buffer '
+                          'postconditions and the loop assigns inclusion of def_levels/rep_levels do not close yet',
+                     defines=['CQV_TYPE=%d' % t], **CR))
+    JOBS.append(dict(name='c02_skip_%s' % tn, entry='h_skip', enforce='carquet_column_skip',
+                     replace=['carquet_column_read_batch'], min_loop_obligations=1, wip=True, est_s=60, timeout=300,
+                     note='never run: depends on the read_batch contract, which is not proved yet',
+                     defines=['CQV_TYPE=%d' % t], **CR))
